@@ -3,13 +3,13 @@ import MythVerif.Proofs.WsQueueTsoBnd
 namespace MythVerif.WsqTso
 open MythVerif.Wsq
 
-set_option maxHeartbeats 4000000 in
 theorem bT_tp1b (s s' : St) (p : Pid) (e) : Inv s → Inv s' → Bnd s → s.tpc p = .tp1b e → stepT s p = some s' → Bnd s' := by
   intro h h' hb hpc hs
   have hcfg := h.cfg
   have hview := thief_views s h p
-  have a6 := h'.tp2; have a7 := h'.tk3; have a8 := h'.vk3; have a9 := h.lockT; have a10 := h.lockO
-  have b1 := h.tk2 p; have b2 := h.vk2 p; have b3 := hb.pk2 p; have b4 := hb.pk3 p; have b5 := hb.tops; have b6 := hb.base0
+  have hbc := hb.tp1b p
+  have a6 := h'.tp2; have a7 := h'.tk3; have a8 := h'.vk3
+  have b1 := h.tk2 p; have b2 := h.vk2 p; have b3 := hb.pk2 p; have b4 := hb.pk3 p
   have hbufE := h.tbufE p
   have hvb : s.bufT p = [] → viewBase (s.bufT p) s.base = s.base ∧ viewTop (s.bufT p) s.top = s.top := by
     intro h0; rw [h0]; exact ⟨rfl, rfl⟩
@@ -18,20 +18,22 @@ theorem bT_tp1b (s s' : St) (p : Pid) (e) : Inv s → Inv s' → Bnd s → s.tpc
   all_goals (try split at hs)
   all_goals (try simp at hs)
   all_goals (try (first | (subst hs; exact hb) | subst hs))
-  all_goals (cases h; cases hb)
-  all_goals simp only [ownerLocked, carry, resetting, ownerFlight] at *
   all_goals (
+    tso_coreT h []
+    bnd_core hb
     constructor
-    all_goals (try simp only [ownerLocked, carry, resetting, ownerFlight, upd_apply, applySto])
-    all_goals (first | assumption | grind [thiefLocked, mayBuf, notTrans, thiefFlight, popWin, rcOff_bnd, Rc1Shape, Rc2Shape, RcPre, RcShape, InsShape, Pu2Shape, CarryShape] | (intro q; by_cases hqp : q = p <;> simp [hqp] <;> grind [thiefLocked, mayBuf, notTrans, thiefFlight, popWin, rcOff_bnd, Rc1Shape, Rc2Shape, RcPre, RcShape, InsShape, Pu2Shape, CarryShape]) | skip))
+    all_goals (bnd_pick hb; rename_i hold)
+    all_goals (first | exact hold | (
+      (try simp only [upd_apply, applySto] at hold ⊢)
+      first | assumption | (intros; contradiction) | (intro q; if hq : q = p then (subst hq; simp only [if_true]; intros; contradiction) else (simp only [if_neg hq]; exact hold q)) | grind [thiefLocked, mayBuf, notTrans, thiefFlight, popWin, rcOff_bnd, Rc1Shape, Rc2Shape, RcPre, RcShape, InsShape, Pu2Shape, CarryShape] | (intro q; by_cases hqp : q = p <;> simp [hqp] <;> grind [thiefLocked, mayBuf, notTrans, thiefFlight, popWin, rcOff_bnd, Rc1Shape, Rc2Shape, RcPre, RcShape, InsShape, Pu2Shape, CarryShape]) | skip)))
 
-set_option maxHeartbeats 4000000 in
 theorem bT_tp2 (s s' : St) (p : Pid) (e b) : Inv s → Inv s' → Bnd s → s.tpc p = .tp2 e b → stepT s p = some s' → Bnd s' := by
   intro h h' hb hpc hs
   have hcfg := h.cfg
   have hview := thief_views s h p
-  have a6 := h'.tp2; have a7 := h'.tk3; have a8 := h'.vk3; have a9 := h.lockT; have a10 := h.lockO
-  have b1 := h.tk2 p; have b2 := h.vk2 p; have b3 := hb.pk2 p; have b4 := hb.pk3 p; have b5 := hb.tops; have b6 := hb.base0
+  have hbc := hb.tp2 p
+  have a6 := h'.tp2; have a7 := h'.tk3; have a8 := h'.vk3
+  have b1 := h.tk2 p; have b2 := h.vk2 p; have b3 := hb.pk2 p; have b4 := hb.pk3 p
   have hbufE := h.tbufE p
   have hvb : s.bufT p = [] → viewBase (s.bufT p) s.base = s.base ∧ viewTop (s.bufT p) s.top = s.top := by
     intro h0; rw [h0]; exact ⟨rfl, rfl⟩
@@ -40,20 +42,22 @@ theorem bT_tp2 (s s' : St) (p : Pid) (e b) : Inv s → Inv s' → Bnd s → s.tp
   all_goals (try split at hs)
   all_goals (try simp at hs)
   all_goals (try (first | (subst hs; exact hb) | subst hs))
-  all_goals (cases h; cases hb)
-  all_goals simp only [ownerLocked, carry, resetting, ownerFlight] at *
   all_goals (
+    tso_coreT h [tp2]
+    bnd_core hb
     constructor
-    all_goals (try simp only [ownerLocked, carry, resetting, ownerFlight, upd_apply, applySto])
-    all_goals (first | assumption | grind [thiefLocked, mayBuf, notTrans, thiefFlight, popWin, rcOff_bnd, Rc1Shape, Rc2Shape, RcPre, RcShape, InsShape, Pu2Shape, CarryShape] | (intro q; by_cases hqp : q = p <;> simp [hqp] <;> grind [thiefLocked, mayBuf, notTrans, thiefFlight, popWin, rcOff_bnd, Rc1Shape, Rc2Shape, RcPre, RcShape, InsShape, Pu2Shape, CarryShape]) | skip))
+    all_goals (bnd_pick hb; rename_i hold)
+    all_goals (first | exact hold | (
+      (try simp only [upd_apply, applySto] at hold ⊢)
+      first | assumption | (intros; contradiction) | (intro q; if hq : q = p then (subst hq; simp only [if_true]; intros; contradiction) else (simp only [if_neg hq]; exact hold q)) | grind [thiefLocked, mayBuf, notTrans, thiefFlight, popWin, rcOff_bnd, Rc1Shape, Rc2Shape, RcPre, RcShape, InsShape, Pu2Shape, CarryShape] | (intro q; by_cases hqp : q = p <;> simp [hqp] <;> grind [thiefLocked, mayBuf, notTrans, thiefFlight, popWin, rcOff_bnd, Rc1Shape, Rc2Shape, RcPre, RcShape, InsShape, Pu2Shape, CarryShape]) | skip)))
 
-set_option maxHeartbeats 4000000 in
 theorem bT_tp3 (s s' : St) (p : Pid) (e) : Inv s → Inv s' → Bnd s → s.tpc p = .tp3 e → stepT s p = some s' → Bnd s' := by
   intro h h' hb hpc hs
   have hcfg := h.cfg
   have hview := thief_views s h p
-  have a6 := h'.tp2; have a7 := h'.tk3; have a8 := h'.vk3; have a9 := h.lockT; have a10 := h.lockO
-  have b1 := h.tk2 p; have b2 := h.vk2 p; have b3 := hb.pk2 p; have b4 := hb.pk3 p; have b5 := hb.tops; have b6 := hb.base0
+  have hbc := hb.tp3 p
+  have a6 := h'.tp2; have a7 := h'.tk3; have a8 := h'.vk3
+  have b1 := h.tk2 p; have b2 := h.vk2 p; have b3 := hb.pk2 p; have b4 := hb.pk3 p
   have hbufE := h.tbufE p
   have hvb : s.bufT p = [] → viewBase (s.bufT p) s.base = s.base ∧ viewTop (s.bufT p) s.top = s.top := by
     intro h0; rw [h0]; exact ⟨rfl, rfl⟩
@@ -62,20 +66,22 @@ theorem bT_tp3 (s s' : St) (p : Pid) (e) : Inv s → Inv s' → Bnd s → s.tpc 
   all_goals (try split at hs)
   all_goals (try simp at hs)
   all_goals (try (first | (subst hs; exact hb) | subst hs))
-  all_goals (cases h; cases hb)
-  all_goals simp only [ownerLocked, carry, resetting, ownerFlight] at *
   all_goals (
+    tso_coreT h [tp3]
+    bnd_core hb
     constructor
-    all_goals (try simp only [ownerLocked, carry, resetting, ownerFlight, upd_apply, applySto])
-    all_goals (first | assumption | grind [thiefLocked, mayBuf, notTrans, thiefFlight, popWin, rcOff_bnd, Rc1Shape, Rc2Shape, RcPre, RcShape, InsShape, Pu2Shape, CarryShape] | (intro q; by_cases hqp : q = p <;> simp [hqp] <;> grind [thiefLocked, mayBuf, notTrans, thiefFlight, popWin, rcOff_bnd, Rc1Shape, Rc2Shape, RcPre, RcShape, InsShape, Pu2Shape, CarryShape]) | skip))
+    all_goals (bnd_pick hb; rename_i hold)
+    all_goals (first | exact hold | (
+      (try simp only [upd_apply, applySto] at hold ⊢)
+      first | assumption | (intros; contradiction) | (intro q; if hq : q = p then (subst hq; simp only [if_true]; intros; contradiction) else (simp only [if_neg hq]; exact hold q)) | grind [thiefLocked, mayBuf, notTrans, thiefFlight, popWin, rcOff_bnd, Rc1Shape, Rc2Shape, RcPre, RcShape, InsShape, Pu2Shape, CarryShape] | (intro q; by_cases hqp : q = p <;> simp [hqp] <;> grind [thiefLocked, mayBuf, notTrans, thiefFlight, popWin, rcOff_bnd, Rc1Shape, Rc2Shape, RcPre, RcShape, InsShape, Pu2Shape, CarryShape]) | skip)))
 
-set_option maxHeartbeats 4000000 in
 theorem bT_tp4 (s s' : St) (p : Pid) (ok) : Inv s → Inv s' → Bnd s → s.tpc p = .tp4 ok → stepT s p = some s' → Bnd s' := by
   intro h h' hb hpc hs
   have hcfg := h.cfg
   have hview := thief_views s h p
-  have a6 := h'.tp2; have a7 := h'.tk3; have a8 := h'.vk3; have a9 := h.lockT; have a10 := h.lockO
-  have b1 := h.tk2 p; have b2 := h.vk2 p; have b3 := hb.pk2 p; have b4 := hb.pk3 p; have b5 := hb.tops; have b6 := hb.base0
+  have hbc := hb.tp4 p
+  have a6 := h'.tp2; have a7 := h'.tk3; have a8 := h'.vk3
+  have b1 := h.tk2 p; have b2 := h.vk2 p; have b3 := hb.pk2 p; have b4 := hb.pk3 p
   have hbufE := h.tbufE p
   have hvb : s.bufT p = [] → viewBase (s.bufT p) s.base = s.base ∧ viewTop (s.bufT p) s.top = s.top := by
     intro h0; rw [h0]; exact ⟨rfl, rfl⟩
@@ -84,20 +90,21 @@ theorem bT_tp4 (s s' : St) (p : Pid) (ok) : Inv s → Inv s' → Bnd s → s.tpc
   all_goals (try split at hs)
   all_goals (try simp at hs)
   all_goals (try (first | (subst hs; exact hb) | subst hs))
-  all_goals (cases h; cases hb)
-  all_goals simp only [ownerLocked, carry, resetting, ownerFlight] at *
   all_goals (
+    tso_coreT h [tp4]
+    bnd_core hb
     constructor
-    all_goals (try simp only [ownerLocked, carry, resetting, ownerFlight, upd_apply, applySto])
-    all_goals (first | assumption | grind [thiefLocked, mayBuf, notTrans, thiefFlight, popWin, rcOff_bnd, Rc1Shape, Rc2Shape, RcPre, RcShape, InsShape, Pu2Shape, CarryShape] | (intro q; by_cases hqp : q = p <;> simp [hqp] <;> grind [thiefLocked, mayBuf, notTrans, thiefFlight, popWin, rcOff_bnd, Rc1Shape, Rc2Shape, RcPre, RcShape, InsShape, Pu2Shape, CarryShape]) | skip))
+    all_goals (bnd_pick hb; rename_i hold)
+    all_goals (first | exact hold | (
+      (try simp only [upd_apply, applySto] at hold ⊢)
+      first | assumption | (intros; contradiction) | (intro q; if hq : q = p then (subst hq; simp only [if_true]; intros; contradiction) else (simp only [if_neg hq]; exact hold q)) | grind [thiefLocked, mayBuf, notTrans, thiefFlight, popWin, rcOff_bnd, Rc1Shape, Rc2Shape, RcPre, RcShape, InsShape, Pu2Shape, CarryShape] | (intro q; by_cases hqp : q = p <;> simp [hqp] <;> grind [thiefLocked, mayBuf, notTrans, thiefFlight, popWin, rcOff_bnd, Rc1Shape, Rc2Shape, RcPre, RcShape, InsShape, Pu2Shape, CarryShape]) | skip)))
 
-set_option maxHeartbeats 4000000 in
 theorem bT_kq0 (s s' : St) (p : Pid) : Inv s → Inv s' → Bnd s → s.tpc p = .kq0 → stepT s p = some s' → Bnd s' := by
   intro h h' hb hpc hs
   have hcfg := h.cfg
   have hview := thief_views s h p
-  have a6 := h'.tp2; have a7 := h'.tk3; have a8 := h'.vk3; have a9 := h.lockT; have a10 := h.lockO
-  have b1 := h.tk2 p; have b2 := h.vk2 p; have b3 := hb.pk2 p; have b4 := hb.pk3 p; have b5 := hb.tops; have b6 := hb.base0
+  have a6 := h'.tp2; have a7 := h'.tk3; have a8 := h'.vk3
+  have b1 := h.tk2 p; have b2 := h.vk2 p; have b3 := hb.pk2 p; have b4 := hb.pk3 p
   have hbufE := h.tbufE p
   have hvb : s.bufT p = [] → viewBase (s.bufT p) s.base = s.base ∧ viewTop (s.bufT p) s.top = s.top := by
     intro h0; rw [h0]; exact ⟨rfl, rfl⟩
@@ -106,20 +113,21 @@ theorem bT_kq0 (s s' : St) (p : Pid) : Inv s → Inv s' → Bnd s → s.tpc p = 
   all_goals (try split at hs)
   all_goals (try simp at hs)
   all_goals (try (first | (subst hs; exact hb) | subst hs))
-  all_goals (cases h; cases hb)
-  all_goals simp only [ownerLocked, carry, resetting, ownerFlight] at *
   all_goals (
+    tso_coreT h []
+    bnd_core hb
     constructor
-    all_goals (try simp only [ownerLocked, carry, resetting, ownerFlight, upd_apply, applySto])
-    all_goals (first | assumption | grind [thiefLocked, mayBuf, notTrans, thiefFlight, popWin, rcOff_bnd, Rc1Shape, Rc2Shape, RcPre, RcShape, InsShape, Pu2Shape, CarryShape] | (intro q; by_cases hqp : q = p <;> simp [hqp] <;> grind [thiefLocked, mayBuf, notTrans, thiefFlight, popWin, rcOff_bnd, Rc1Shape, Rc2Shape, RcPre, RcShape, InsShape, Pu2Shape, CarryShape]) | skip))
+    all_goals (bnd_pick hb; rename_i hold)
+    all_goals (first | exact hold | (
+      (try simp only [upd_apply, applySto] at hold ⊢)
+      first | assumption | (intros; contradiction) | (intro q; if hq : q = p then (subst hq; simp only [if_true]; intros; contradiction) else (simp only [if_neg hq]; exact hold q)) | grind [thiefLocked, mayBuf, notTrans, thiefFlight, popWin, rcOff_bnd, Rc1Shape, Rc2Shape, RcPre, RcShape, InsShape, Pu2Shape, CarryShape] | (intro q; by_cases hqp : q = p <;> simp [hqp] <;> grind [thiefLocked, mayBuf, notTrans, thiefFlight, popWin, rcOff_bnd, Rc1Shape, Rc2Shape, RcPre, RcShape, InsShape, Pu2Shape, CarryShape]) | skip)))
 
-set_option maxHeartbeats 4000000 in
 theorem bT_kq1 (s s' : St) (p : Pid) (t) : Inv s → Inv s' → Bnd s → s.tpc p = .kq1 t → stepT s p = some s' → Bnd s' := by
   intro h h' hb hpc hs
   have hcfg := h.cfg
   have hview := thief_views s h p
-  have a6 := h'.tp2; have a7 := h'.tk3; have a8 := h'.vk3; have a9 := h.lockT; have a10 := h.lockO
-  have b1 := h.tk2 p; have b2 := h.vk2 p; have b3 := hb.pk2 p; have b4 := hb.pk3 p; have b5 := hb.tops; have b6 := hb.base0
+  have a6 := h'.tp2; have a7 := h'.tk3; have a8 := h'.vk3
+  have b1 := h.tk2 p; have b2 := h.vk2 p; have b3 := hb.pk2 p; have b4 := hb.pk3 p
   have hbufE := h.tbufE p
   have hvb : s.bufT p = [] → viewBase (s.bufT p) s.base = s.base ∧ viewTop (s.bufT p) s.top = s.top := by
     intro h0; rw [h0]; exact ⟨rfl, rfl⟩
@@ -128,11 +136,13 @@ theorem bT_kq1 (s s' : St) (p : Pid) (t) : Inv s → Inv s' → Bnd s → s.tpc 
   all_goals (try split at hs)
   all_goals (try simp at hs)
   all_goals (try (first | (subst hs; exact hb) | subst hs))
-  all_goals (cases h; cases hb)
-  all_goals simp only [ownerLocked, carry, resetting, ownerFlight] at *
   all_goals (
+    tso_coreT h []
+    bnd_core hb
     constructor
-    all_goals (try simp only [ownerLocked, carry, resetting, ownerFlight, upd_apply, applySto])
-    all_goals (first | assumption | grind [thiefLocked, mayBuf, notTrans, thiefFlight, popWin, rcOff_bnd, Rc1Shape, Rc2Shape, RcPre, RcShape, InsShape, Pu2Shape, CarryShape] | (intro q; by_cases hqp : q = p <;> simp [hqp] <;> grind [thiefLocked, mayBuf, notTrans, thiefFlight, popWin, rcOff_bnd, Rc1Shape, Rc2Shape, RcPre, RcShape, InsShape, Pu2Shape, CarryShape]) | skip))
+    all_goals (bnd_pick hb; rename_i hold)
+    all_goals (first | exact hold | (
+      (try simp only [upd_apply, applySto] at hold ⊢)
+      first | assumption | (intros; contradiction) | (intro q; if hq : q = p then (subst hq; simp only [if_true]; intros; contradiction) else (simp only [if_neg hq]; exact hold q)) | grind [thiefLocked, mayBuf, notTrans, thiefFlight, popWin, rcOff_bnd, Rc1Shape, Rc2Shape, RcPre, RcShape, InsShape, Pu2Shape, CarryShape] | (intro q; by_cases hqp : q = p <;> simp [hqp] <;> grind [thiefLocked, mayBuf, notTrans, thiefFlight, popWin, rcOff_bnd, Rc1Shape, Rc2Shape, RcPre, RcShape, InsShape, Pu2Shape, CarryShape]) | skip)))
 
 end MythVerif.WsqTso
